@@ -178,7 +178,10 @@ func (e vmExec) LoadSingleton(id, mod string) (value.Value, bool, error) {
 	}
 	return nil, false, nil
 }
-func (e vmExec) GetBuiltinImport(a, b string) (value.Value, bool) { return nil, false }
+// values of host-provided modules (testing.assert_eq, ...) come from the project's own testing hosts
+func (e vmExec) GetBuiltinImport(a, b string) (value.Value, bool) {
+	return hms.TestingVmExecutor{}.GetBuiltinImport(a, b)
+}
 func (e vmExec) ResolveModuleCode(a string) (string, bool, error) { return "", false, nil }
 func (e vmExec) WriteStringTo(s string) error {
 	if e.r.outLock != nil {
@@ -205,7 +208,9 @@ func (e vmExec) Free() error { return nil }
 
 type treeExec struct{ r *rec }
 
-func (e treeExec) GetBuiltinImport(a, b string) (ivalue.Value, bool) { return nil, false }
+func (e treeExec) GetBuiltinImport(a, b string) (ivalue.Value, bool) {
+	return hms.TestingTreeExecutor{}.GetBuiltinImport(a, b)
+}
 func (e treeExec) ResolveModuleCode(a string) (string, bool, error)  { return "", false, nil }
 func (e treeExec) WriteStringTo(s string) error {
 	e.r.out.WriteString(s)
